@@ -4388,13 +4388,19 @@ async fn handle_connected_state(
                             (*dtls_guard).as_ref().map(|dtls| dtls.subscribe_state())
                         };
 
+                        // Hold the connection only weakly while parked in the connected loop, so
+                        // that dropping the application's last handle runs `Drop` (teardown).
+                        let grace = inner.config.ice_disconnect_grace;
+                        drop(inner);
+                        drop(pc_temp);
+
                         if let Some(mut dtls_rx) = dtls_state_rx {
-                            let grace = inner.config.ice_disconnect_grace;
                             let (grace_tx, mut grace_rx) = tokio::sync::mpsc::unbounded_channel::<u64>();
                             let mut disconnect_epoch: u64 = 0;
                             loop {
                                 tokio::select! {
                                     _ = &mut rtcp_loop => {
+                                        let Some(inner) = inner_weak.upgrade() else { return false; };
                                         propagate_sctp_close_reason(&inner);
                                         break;
                                     }
@@ -4404,6 +4410,7 @@ async fn handle_connected_state(
                                         if is_ice_failed_or_closed(new_state) {
                                             return true;
                                         }
+                                        let Some(inner) = inner_weak.upgrade() else { return false; };
                                         match new_state {
                                             crate::transports::ice::IceTransportState::Disconnected => {
                                                 inner.set_peer_state(PeerConnectionState::Disconnected);
@@ -4434,6 +4441,7 @@ async fn handle_connected_state(
                                             let state = dtls_rx.borrow().clone();
                                             if state == crate::transports::dtls::DtlsState::Closed || state == crate::transports::dtls::DtlsState::Failed {
                                                 debug!("DTLS closed/failed, disconnecting PC");
+                                                let Some(inner) = inner_weak.upgrade() else { return false; };
                                                 let reason = if state == crate::transports::dtls::DtlsState::Failed {
                                                     DisconnectReason::DtlsFailed
                                                 } else {
@@ -4452,6 +4460,7 @@ async fn handle_connected_state(
                                     }
                                     Some(epoch) = grace_rx.recv() => {
                                         if epoch == disconnect_epoch {
+                                            let Some(inner) = inner_weak.upgrade() else { return false; };
                                             let _ = inner.disconnect_reason.send_if_modified(|cur| {
                                                 if cur.is_none() {
                                                     *cur = Some(DisconnectReason::IceDisconnected);
@@ -4472,12 +4481,12 @@ async fn handle_connected_state(
                                 }
                             }
                         } else {
-                            let grace = inner.config.ice_disconnect_grace;
                             let (grace_tx, mut grace_rx) = tokio::sync::mpsc::unbounded_channel::<u64>();
                             let mut disconnect_epoch: u64 = 0;
                             loop {
                                 tokio::select! {
                                     _ = &mut rtcp_loop => {
+                                        let Some(inner) = inner_weak.upgrade() else { return false; };
                                         propagate_sctp_close_reason(&inner);
                                         break;
                                     }
@@ -4487,6 +4496,7 @@ async fn handle_connected_state(
                                         if is_ice_failed_or_closed(new_state) {
                                             return true;
                                         }
+                                        let Some(inner) = inner_weak.upgrade() else { return false; };
                                         match new_state {
                                             crate::transports::ice::IceTransportState::Disconnected => {
                                                 inner.set_peer_state(PeerConnectionState::Disconnected);
@@ -4514,6 +4524,7 @@ async fn handle_connected_state(
                                     }
                                     Some(epoch) = grace_rx.recv() => {
                                         if epoch == disconnect_epoch {
+                                            let Some(inner) = inner_weak.upgrade() else { return false; };
                                             let _ = inner.disconnect_reason.send_if_modified(|cur| {
                                                 if cur.is_none() {
                                                     *cur = Some(DisconnectReason::IceDisconnected);
